@@ -74,6 +74,10 @@ func decModelLine(g *groups.G) string {
 		return "dec bls12381g1 "
 	case "gnark-g1":
 		return "dec bls12381g1-gnark "
+	case "kilic-g2", "circl-g2":
+		// the 96-byte compressed form (Groups/BlsG2.lean, Lib/BlsG2Dec.lean: accepted ⇒ valid member);
+		// gnark-g2 also reads the uncompressed form: decided by the math/big oracle below
+		return "dec bls12381g2 "
 	}
 	return ""
 }
